@@ -77,6 +77,11 @@ impl<'a, TPrinter: Printer> FileExecutor<'a, TPrinter> {
         self.execution_engine.execute_joined_table(self.running.clone())?;
 
         'files: for reader in std::mem::take(&mut self.readers).into_iter() {
+            // LIMIT 0: nothing to output, so nothing to read
+            if self.execution_engine.reached_limit() {
+                break;
+            }
+
             for line in reader.lines() {
                 if !self.running.load(Ordering::SeqCst) {
                     break;
@@ -208,6 +213,11 @@ impl<'a> FollowFileExecutor<'a> {
     pub fn execute(&mut self) -> ExecutionResult<()> {
         if self.execution_engine.is_join() {
             return Err(ExecutionError::JoinNotSupported);
+        }
+
+        // LIMIT 0: nothing to output, so do not wait for a line
+        if self.execution_engine.reached_limit() {
+            return Ok(());
         }
 
         for input_line in FollowFileIterator::new(self.reader.take().unwrap()) {
